@@ -1312,7 +1312,8 @@ bool Annotator::AnnotatorImpl::validItem(const AnyCellmlElementPtr &item)
         break;
     case CellmlElementType::UNIT: {
         auto unitsItem = item->unitsItem();
-        result = (unitsItem != nullptr) && (unitsItem->units() != nullptr);
+        result = (unitsItem != nullptr) && (unitsItem->units() != nullptr)
+                 && (unitsItem->index() < unitsItem->units()->unitCount());
     } break;
     case CellmlElementType::UNITS:
         result = item->units() != nullptr;
